@@ -86,7 +86,8 @@ BATTERY = [
 
 def generate(rng, tier="quick"):
     n = rng.randint(4, 16)
-    kinds = ["create", "create", "validates", "create_illegal", "create_mismatched", "create_nested", "validator_for", "validator_for", "validate",
+    kinds = ["create", "create", "validates", "create_illegal", "create_mismatched", "create_nested", "extend_version",
+             "validator_for", "validator_for", "validate",
              "validate", "cli", "suspend", "resume", "validate_cls"]
     enabled = [k for k in kinds if rng.random() < 0.8] or kinds
     if "create" not in enabled and "validates" not in enabled:
@@ -316,6 +317,24 @@ def execute(scn):
                 if suspended:
                     probe("registration_while_iterator_suspended")
                 check_registry(step, k)
+            elif k == "extend_version":
+                # extend(parent, ..., version=...) registers the extension through create(version=...) under ITS OWN
+                # metaschema id - which is its parent's: from now on that id selects the extension
+                if op["v"] % 2 and new_ids:
+                    u = new_ids[op["a"] % len(new_ids)]
+                    parent = model[u]
+                else:
+                    u = DRAFT_IDS[op["base"]]
+                    parent = model[u]
+                ext = V.extend(parent, validators={"minimum": variant_kw("minimum")},
+                               version="dsim c20 ext %d" % step)
+                model[u] = ext
+                notes[id(ext)] = "ext@%d<%s" % (step, notes.get(id(parent), getattr(parent, "__name__", "?")))
+                if born.get(u, -1) < 0:
+                    born[u] = step          # (ops[step]["base"] names the draft this id behaves like)
+                last_registration = step
+                probe("extension_registered_under_its_parents_id")
+                check_registry(step, k)
             elif k == "create_nested":
                 # the user's id function - which the library calls WHILE it registers class X - itself registers
                 # another class Y (re-entrant registration): both must end up selectable
@@ -324,7 +343,8 @@ def execute(scn):
                 uid_x, uid_y = "urn:dsim:c20:nested-x-%d" % step, "urn:dsim:c20:nested-y-%d" % step
                 inner = {}
 
-                def id_of_x(schema):
+                def id_of_x(schema, base=base, idkw=idkw, inner=inner, uid_y=uid_y, step=step):
+                    # (defaults bind THIS step's values: the class lives on while the loop variables move on)
                     if not inner:
                         inner["cls"] = None
                         my = {idkw: uid_y}
